@@ -180,13 +180,14 @@ func runC17(c *core.Ctx) {
 		c.Inconclusive("dev-full", err.Error())
 	}
 	cmds := append(append([][]string{}, c17Cmds...), []string{"gen", "man"}, []string{"gen", "markdown"})
-	for _, cmd := range cmds {
+	core.ParallelFor(len(cmds), c.Procs, func(_, ci int) {
+		cmd := cmds[ci]
 		args := append(append([]string{}, pre...), cmd...)
 		name := c17Name(cmd)
 		// how long is the report?
 		ref := run.Exec(c.HR, args, run.ExecOpts{Dir: dir})
 		if len(ref.Out) == 0 {
-			continue
+			return
 		}
 		if devfull != nil {
 			res := run.Exec(c.HR, args, run.ExecOpts{Dir: dir, Stdout: devfull})
@@ -208,9 +209,10 @@ func runC17(c *core.Ctx) {
 			return strings.Join(out, " ")
 		}
 		for _, v := range []struct{ what, script, dir string }{
+			{"pipe closed before the first write", fmt.Sprintf("{ sleep 0.3; exec %s %s; } | true; exit ${PIPESTATUS[0]}", c.HR, q(args)), dir},
 			{"pipe closed at once", fmt.Sprintf("%s %s | true; exit ${PIPESTATUS[0]}", c.HR, q(args)), bigdir},
 			{"pipe closed after 4 KiB", fmt.Sprintf("%s %s | head -c 4096 >/dev/null; exit ${PIPESTATUS[0]}", c.HR, q(args)), bigdir},
-			{"file under ulimit -f 1", fmt.Sprintf("ulimit -f 1; %s %s > limited.out", c.HR, q(args)), bigdir},
+			{"file under ulimit -f 1", fmt.Sprintf("ulimit -f 1; %s %s > limited.$$.out; rc=$?; rm -f limited.$$.out; exit $rc", c.HR, q(args)), bigdir},
 		} {
 			big := run.Exec(c.HR, args, run.ExecOpts{Dir: v.dir})
 			need := 1
@@ -221,6 +223,8 @@ func runC17(c *core.Ctx) {
 				need = 2048
 			case "pipe closed at once":
 				need = 70000
+			case "pipe closed before the first write":
+				need = 1
 			}
 			if len(big.Out) < need {
 				continue
@@ -246,5 +250,5 @@ func runC17(c *core.Ctx) {
 				c.Violation(name+"|write-error-dropped", fmt.Sprintf("%s with %s exits 0 (report of %d bytes)", joinArgs(cmd), v.what, len(big.Out)), caseDoc{Args: args, Note: v.what + ": " + v.script, Observed: string(out)})
 			}
 		}
-	}
+	})
 }
